@@ -347,6 +347,15 @@ Definition at_ppc (p : prod) (c : ppc) : prod := {| p_prog := p_prog p; p_seq :=
 Definition prod_done (p : prod) : bool :=
   match p_pc p, p_prog p with PIdle, [] => true | _, _ => false end.
 
+(* the decision core of qb_log_thread_log_post as one function (what prod_step's PLock step computes; tied to the
+   translated C source in LogThrSrcEq.v): new logt_memory_used, new logt_dropped_messages, record accepted? *)
+Definition post_decide (mem_used dropped len : Z) : Z * Z * bool :=
+  let total := LOGT_REC_SIZE + len + 1 in
+  if LOGT_LIMIT <? mem_used + total then (mem_used, dropped + 1, false) else (mem_used + total, dropped, true).
+
+(* qb_log_thread_pause / _resume of the repaired code take the lock exactly when ... *)
+Definition pause_takes_lock (t : tgt) (l : lockst) : bool := t_thr t && negb (lock_is_null l).
+
 (* ---- producer i: qb_log_real_va_ -> qb_log_thread_log_post ---- *)
 (* `inlog' is the process-wide in_logger of the code as found.  With fix 5 the flag is thread-local: a thread that
    begins a log call always finds its own flag clear, so the guard never turns a producer away (the field is then
